@@ -346,6 +346,79 @@ def exhaustive_trees(depth3):
     return out
 
 
+# ---- wave 3 (2): all trees of depth 3 over a reduced alphabet — one representative per precedence level and
+# associativity class of the fragment (conditional 0, or 1, and 2, not 3, comparison 4, additive 5 [left], multiplicative 6
+# [left; `/` and the separately templated `%`], unary minus 7, power 8 [right], call/primary) × all operand positions
+ALPHA_BIN = ["or", "and", "gt", "sub", "div", "mod", "pow"]
+ALPHA_UN = ["not", "neg", "abs"]
+
+
+def alpha_slots():
+    """(operator, arity, position) for every operand position of the reduced alphabet"""
+    out = [(op, 2, p) for op in ALPHA_BIN for p in (0, 1)] + [(op, 1, 0) for op in ALPHA_UN]
+    return out + [("if", 3, p) for p in (0, 1, 2)]
+
+
+def leaf_for(op, i, name):
+    # `%` exists on operator terms only (Element has no __mod__: `a % b` on two elements raises TypeError, see the
+    # classification table), so the left leaf of the `%` representative is an aggregate term (v.arr_sum() = 10.0)
+    return ("agg", "arr_sum", "v") if op == "mod" and i == 0 else ("el", name)
+
+
+def plug(op, arity, pos, x, leaves):
+    """operator node with `x` at operand position `pos` and leaves elsewhere"""
+    it = iter(leaves)
+    return (op,) + tuple(x if i == pos else leaf_for(op, i, next(it)) for i in range(arity))
+
+
+def full(op, leaves):
+    ar = 2 if op in ALPHA_BIN else 1 if op in ALPHA_UN else 3
+    return (op,) + tuple(leaf_for(op, i, n) for i, n in enumerate(leaves[:ar]))
+
+
+def depth3_trees():
+    slots, ops = alpha_slots(), ALPHA_BIN + ALPHA_UN + ["if"]
+    out = []
+    for o1, a1, p1 in slots:                     # spines: outer[pos] ∘ middle[pos] ∘ inner
+        for o2, a2, p2 in slots:
+            for o3 in ops:
+                out.append(plug(o1, a1, p1, plug(o2, a2, p2, full(o3, ["b", "c", "d"]), ["e", "a"]), ["a", "d"]))
+    for o1 in ALPHA_BIN:                         # both operands compound
+        for o2 in ops:
+            for o3 in ops:
+                out.append((o1, full(o2, ["a", "b", "e"]), full(o3, ["c", "d", "e"])))
+    return out
+
+
+# ---- wave 3 (3): the classification table of every (outer operator, operand position, inner form, kind of the other
+# operand) — "nestings the DSL does not support are rejected with an exception, never evaluated to a different value"
+def classification_cases():
+    """[(row_label, inner_label, G-tree)]; rows = outer operator × position × other operand (element / number)."""
+    inner = [("el", ("el", "b")), ("num", ("num", 3.0)), ("-num", ("num", -2.0)), ("neg(num)", ("neg", ("num", 2.0)))]
+    for op in BIN + list(CMPN) + FN2:
+        inner.append((f"b {op} c", (op, ("el", "b"), ("el", "c"))))
+    for op in BIN + list(CMPN):                  # number-on-the-left forms: 2.0 ** b, 2.0 % b, 2.0 - b, 2.0 > b …
+        inner.append((f"2.0 {op} b", (op, ("num", 2.0), ("el", "b"))))
+    for op in BIN + list(CMPN):
+        inner.append((f"b {op} 2.0", (op, ("el", "b"), ("num", 2.0))))
+    for op in UN:
+        inner.append((f"{op}(b)", (op, ("el", "b"))))
+    inner.append(("if", ("if", ("gt", ("el", "b"), ("el", "c")), ("el", "d"), ("el", "e"))))
+    inner.append(("round", ("round", ("div", ("el", "b"), ("el", "c")))))
+    inner += [(f"v.{k}()", ("agg", k, "v")) for k in AGG[:7]] + [("v.dot(w)", ("agg", "dot", "v")), ("mm.arr_sum()", ("agg", "arr_sum", "mm"))]
+    rows = []
+    for op in BIN + list(CMPN) + FN2:
+        for pos in (0, 1):
+            for oname, other in (("el", ("el", "a")), ("num", ("num", 2.0))):
+                rows.append((f"{op}[{pos}] other={oname}", lambda x, op=op, pos=pos, other=other: (op, x, other) if pos == 0 else (op, other, x)))
+    for op in UN + ["round"]:
+        rows.append((f"{op}[0]", lambda x, op=op: (op, x)))
+    rows.append(("if[cond]", lambda x: ("if", x, ("el", "d"), ("el", "e"))))
+    rows.append(("if[then]", lambda x: ("if", ("gt", ("el", "a"), ("el", "c")), x, ("el", "e"))))
+    rows.append(("if[else]", lambda x: ("if", ("lt", ("el", "a"), ("el", "c")), ("el", "d"), x)))
+    return [r for r, _ in rows], [i for i, _ in inner], [(r, i, mk(x)) for r, mk in rows for i, x in inner]
+
+
 def gshrink(g, fails):
     """replace subtrees by leaves / children while the failure persists"""
     def subtrees(t, path=()):
@@ -391,11 +464,12 @@ def run(chk):
               "theorem spec_ok : specOK table = true := by decide +kernel\n"
               "theorem vocab_ok : vocabOK table = true := by decide +kernel\n"
               "theorem holds : C02_full table := C02_full_of_tableOK table table_ok spec_ok vocab_ok\n#print axioms holds\n"
-              "theorem unique (e : E) (he : E.ok table L e = true) : ∀ p, parse (render table e) = some p → p = denote table e :=\n  (C02_parse_unique table table_ok e he).2.1\n#print axioms unique\n")
+              "theorem unique (e : E) (he : E.ok table L e = true) : ∀ p, parse (render table e) = some p → p = denote table e :=\n  (C02_parse_unique table table_ok e he).2.1\n#print axioms unique\n"
+              "theorem complete (e : E) (he : E.ok table L e = true) : parse (render table e) = some (denote table e) :=\n  (C02_parse_complete table table_ok e he).1\n#print axioms complete\n")
     else:
         ob = "theorem table_not_ok : tableOK L table = false := by decide +kernel\n#print axioms table_not_ok\n"
     gen = ("import Bptk.Props.C02\nimport Bptk.Gen.C02Table\n/-! GENERATED on every run. -/\nnamespace Bptk.C02.Gen\nopen Bptk.Py\n" + ob + "end Bptk.C02.Gen\n")
-    ok, why = chk.prove(gen, extra_sources=["Bptk/Proofs/PyFrag.lean", "Bptk/Proofs/PySound.lean", "Bptk/Proofs/PyDet.lean", "Bptk/Core/PyFrag.lean", "Bptk/Gen/C02Table.lean"])
+    ok, why = chk.prove(gen, extra_sources=["Bptk/Proofs/PyFrag.lean", "Bptk/Proofs/PySound.lean", "Bptk/Proofs/PyDet.lean", "Bptk/Proofs/PyComplete.lean", "Bptk/Core/PyFrag.lean", "Bptk/Gen/C02Table.lean"])
     chk.cov["trusted_base"] = [
         "Lean 4.33 kernel; axioms ⊆ {propext, Classical.choice, Quot.sound}; `decide +kernel` for the per-run table obligations",
         "A1 grammar of the Python fragment (binding powers of CPython's expression grammar) — validated on every run against ast.parse on all generated strings",
@@ -409,9 +483,21 @@ def run(chk):
     conv = m.converter("probe_conv")
     trees = exhaustive_trees(depth3=not chk.quick)
     n_exh = len(trees)
+    n_d3 = 0
+    if not chk.quick:
+        d3 = depth3_trees()
+        n_d3 = len(d3)
+        trees += d3
     rng = chk.rng.fork("c02")
     for _ in range(400 if chk.quick else 6000):
         trees.append(gen_tree(rng, rng.range(2, 5)))
+    row_names, inner_names, ccases = classification_cases()
+    label = {}                                   # index in `trees` -> (row, inner) of the classification table
+    for r, i, g in ccases:
+        label[len(trees)] = (r, i)
+        trees.append(g)
+    cls_code = {}                                # (row, inner) -> R right | B rejected at build | E rejected at evaluation |
+                                                 # P plain Python number (no DSL object) | D outside the value domain | W WRONG
     req, meta = [], []
     stats = {"rejected_build": 0, "rejected_domain": 0, "unsupported_lex": 0, "ops": {}}
     ref_fail = None
@@ -433,24 +519,42 @@ def run(chk):
             return float(got) == float(exp) or (abs(float(got) - float(exp)) <= 1e-12 * max(1.0, abs(float(exp))) )
         except Exception:
             return False
-    for g in trees:
+    cls_detail = {}
+    def classify(ti, code, detail=None):
+        if ti in label:
+            cls_code[label[ti]] = code
+            if detail:
+                cls_detail.setdefault(code + ":" + detail, []).append(" / ".join(label[ti]))
+    for ti, g in enumerate(trees):
         try:
             exp = ref_eval(g, vals, arrs)
+            dom = True
         except Reject:
-            stats["rejected_domain"] += 1
-            continue
+            exp, dom = None, False
+            if ti not in label:
+                stats["rejected_domain"] += 1
+                continue
         try:
             real = build_real(g, els, arrs)
         except Reject:
             stats["rejected_build"] += 1
+            classify(ti, "B", "Reject")
             continue
         except Exception as ex:
             # unsupported nesting rejected with an exception at build time: allowed by the property
             stats["rejected_build"] += 1
             stats.setdefault("build_exceptions", {}).setdefault(type(ex).__name__, 0)
             stats["build_exceptions"][type(ex).__name__] += 1
+            classify(ti, "B", type(ex).__name__)
             continue
         if isinstance(real, (int, float)):
+            classify(ti, "P")
+            continue
+        if not dom:
+            # the reference value is outside the comparable domain (overflow, complex, nan, numpy narrow float):
+            # the DSL may compute anything or raise; recorded, not compared
+            stats["rejected_domain"] += 1
+            classify(ti, "D")
             continue
         stats["ops"][g[0]] = stats["ops"].get(g[0], 0) + 1
         try:
@@ -459,6 +563,7 @@ def run(chk):
             stats["rejected_build"] += 1
             stats.setdefault("build_exceptions", {}).setdefault(type(ex).__name__, 0)
             stats["build_exceptions"][type(ex).__name__] += 1
+            classify(ti, "B", type(ex).__name__)
             continue
         try:
             conv.equation = real
@@ -468,6 +573,7 @@ def run(chk):
             got, verr = None, f"{type(ex).__name__}: {ex}"
         if verr is None and not same(got, exp) and ref_fail is None:
             ref_fail = (g, got, exp, text)
+        classify(ti, "E" if verr is not None else ("R" if same(got, exp) else "W"), type(ex).__name__ if verr is not None else None)
         # evaluation-time exception = "rejected with an exception": allowed, counted
         if verr is not None:
             stats.setdefault("eval_exceptions", 0); stats["eval_exceptions"] += 1
@@ -479,20 +585,38 @@ def run(chk):
             stats["unsupported_lex"] += 1
             continue
         i = len(meta)
-        req += ["render " + " ".join(tw), "parse " + " ".join(words), "denote " + " ".join(tw), "eok " + " ".join(tw)]
+        req += ["render " + " ".join(tw), "parse " + " ".join(words), "denote " + " ".join(tw), "eok " + " ".join(tw),
+                "parsemin " + " ".join(words)]
         meta.append((g, text, words, py_sexp))
         chk.case(gshow(g), nontrivial=any(c[0] not in ("num", "el") for c in g[1:]), sample={"expr": gshow(g), "text": text, "value": repr(got)})
     out = drive("C02", req) if req else []
     chk.cov["traces_validated_against_impl"] = len(meta)
     chk.cov["exhaustive_depth2_trees"] = n_exh
+    chk.cov["depth3_reduced_alphabet_trees"] = n_d3
     chk.cov["distribution"] = stats
-    chk.cov["rule"] = (f"every outer operator × operand position × inner operator of the C02 vocabulary (depth 2{', plus all +-*/**% triples at depth 3' if not chk.quick else ''}; {n_exh} trees) "
-                       "and seeded random trees to depth 5; per tree: real term text = Lean render; Lean parse = CPython ast.parse; denote = parse; real value = Python arithmetic. "
+    # classification table: one string per row (outer operator[position], kind of the other operand), one letter per inner form
+    counts = {}
+    for c in cls_code.values():
+        counts[c] = counts.get(c, 0) + 1
+    chk.cov["classification"] = {
+        "legend": "R accepted and right; B rejected with an exception when the expression is built; E rejected with an exception when it is "
+                  "evaluated; P no DSL object involved (plain Python number); D reference value outside the comparable domain (overflow / complex / "
+                  "numpy narrow float) — not compared; W accepted and WRONG (a violation)",
+        "inner_forms": inner_names,
+        "rows": {r: "".join(cls_code.get((r, i), "?") for i in inner_names) for r in row_names},
+        "counts": counts,
+        "rejections": {k: v[:6] + ([f"... {len(v)} in all"] if len(v) > 6 else []) for k, v in sorted(cls_detail.items())},
+    }
+    chk.cov["rule"] = (f"every outer operator × operand position × inner operator of the C02 vocabulary (depth 2{', plus all +-*/**% triples at depth 3' if not chk.quick else ''}; {n_exh} trees){f', all depth-3 spines and two-compound-operand trees over the reduced alphabet (one representative per precedence level / associativity class) × all operand positions ({n_d3} trees)' if n_d3 else ''}, "
+                       f"the classification table outer[position] × inner form × kind of the other operand incl. number-on-the-left forms ({len(ccases)} cases) "
+                       "and seeded random trees to depth 5; per tree: real term text = Lean render; Lean parse = CPython ast.parse; denote = parse; parse with the proved fuel bound 2·length+2 = parse; real value = Python arithmetic. "
                        "distinct = canonical expression text; non-trivial = at least one compound operand")
     corr = None
     for i, (g, text, words, py_sexp) in enumerate(meta):
-        r, p, d, e = out[4 * i:4 * i + 4]
-        if r != "toks " + " ".join(words):
+        r, p, d, e, pm = out[5 * i:5 * i + 5]
+        if pm != p:
+            corr = corr or ("parser-fuel-bound (2·length+2, Proofs/PyComplete)", g, text, pm, p)
+        elif r != "toks " + " ".join(words):
             corr = corr or ("render", g, text, r, " ".join(words))
         elif p != "sexp " + py_sexp:
             corr = corr or ("parser-vs-cpython", g, text, p, py_sexp)
